@@ -63,6 +63,14 @@ def screen_case(
     else:
         ppool = list(plate_names)
     dpool = draw(st.lists(dose_strategy, min_size=1, max_size=4))
+    if draw(st.integers(0, 7)) == 0:
+        # names and doses that read the same when written one after the other ("A1" at 0.5 and "A" at 10.5; "d1" at 12 and "d11" at 2)
+        tpool = ["A", "A1", "d1", "d11"] + ([ctl] if ctl not in ("A", "A1", "d1", "d11") else [])
+        dpool = [0.5, 10.5, 12.0, 2.0]
+    if draw(st.integers(0, 2)) == 0:
+        # doses that differ in the last bits only (0.1*3 next to 0.3, a value next to its float successor): distinct doses all the same
+        d0 = dpool[0] if (dpool[0] == dpool[0] and abs(dpool[0]) not in (0.0, float("inf"))) else 0.3
+        dpool = dpool + [float(np.nextafter(d0, np.inf)), d0 * (1.0 + 3e-13), 0.1 * 3, 0.3]
     n = draw(st.integers(min_rows, max_rows))
     rows = []
     for _ in range(n):
